@@ -1046,7 +1046,7 @@ impl Check for C21 {
             "dialect-dependent statements are not judged: DROP COLUMN of a key/indexed/only column, DROP SCHEMA (no CASCADE) of a non-empty schema, UPDATE of a key column",
             "reopen = drop the only handle (clean close through Drop) and Database::open of the same directory",
         ];
-        s.cap_quick_s = 90;
+        s.cap_quick_s = 100;
         s.cap_thorough_s = 1500;
         vec![s]
     }
